@@ -8,13 +8,20 @@
 //!   and consume what the raw read consumes, also on a reader obtained by `split` (the offset stays relative to the
 //!   SECTION), and every other operation is unaffected by the relocation (C18: "every address and cross-section
 //!   offset, and nothing else").
-//! Discharges on real code what the Verus batch `relocate` assumes for the inherited default reads (R-STUB).
-//! Bounded: section of 16 symbolic bytes.
-use crate::eslice::{any_endian, any_window, L};
+//! Discharges on real code what the Verus batch `relocate` assumes for the inherited default reads (R-STUB) and what
+//! it can only pin syntactically (offset ids, `to_slice`).
+//! State space: arbitrary window [s, s+n) of a fully symbolic 16-byte section, one operation with arbitrary
+//! arguments; the operations are spread over several harnesses to keep each one small.  bounded(16 bytes).
+use crate::eslice::{any_endian, any_window, choose, L};
 use gimli::{EndianSlice, Endianity, Error, Format, Reader, ReaderOffsetId, Relocate, RelocateReader, Result, RunTimeEndian};
 use std::borrow::Cow;
 
 type S<'a> = EndianSlice<'a, RunTimeEndian>;
+type RR<'a, T> = RelocateReader<S<'a>, T>;
+
+pub trait Rel: Relocate<usize> + core::fmt::Debug + Clone + Copy {
+    fn any() -> Self;
+}
 
 #[derive(Debug, Clone, Copy)]
 struct Identity;
@@ -26,8 +33,13 @@ impl Relocate<usize> for Identity {
         Ok(value)
     }
 }
+impl Rel for Identity {
+    fn any() -> Self {
+        Identity
+    }
+}
 
-/// value + k + offset, except at section offset `bad`, where relocation fails
+/// value + k + offset (offsets: one more), except at section offset `bad`, where relocation fails
 #[derive(Debug, Clone, Copy)]
 struct AddK {
     k: u64,
@@ -47,9 +59,14 @@ impl Relocate<usize> for AddK {
         Ok(value.wrapping_add(self.k as usize).wrapping_add(offset).wrapping_add(1))
     }
 }
+impl Rel for AddK {
+    fn any() -> Self {
+        AddK { k: kani::any(), bad: kani::any() }
+    }
+}
 
 /// a relocating reader positioned on the window [s, s+n) of `base` (its section)
-fn reloc_at<'a, T: Relocate<usize> + core::fmt::Debug + Clone>(base: S<'a>, rel: T, s: usize, n: usize) -> RelocateReader<S<'a>, T> {
+fn reloc_at<'a, T: Rel>(base: S<'a>, rel: T, s: usize, n: usize) -> RR<'a, T> {
     let mut rr = RelocateReader::new(base, rel);
     rr.skip(s).unwrap();
     rr.truncate(n).unwrap();
@@ -57,7 +74,7 @@ fn reloc_at<'a, T: Relocate<usize> + core::fmt::Debug + Clone>(base: S<'a>, rel:
 }
 
 /// the relocating reader's window is exactly the bare reader's window (same memory)
-fn same<'a, T: Relocate<usize> + core::fmt::Debug + Clone>(rr: &RelocateReader<S<'a>, T>, m: &S<'a>) {
+fn same<'a, T: Rel>(rr: &RR<'a, T>, m: &S<'a>) {
     assert!(rr.inner().slice().as_ptr() == m.slice().as_ptr());
     assert!(rr.inner().len() == m.len());
     assert!(rr.len() == m.len());
@@ -66,249 +83,236 @@ fn same<'a, T: Relocate<usize> + core::fmt::Debug + Clone>(rr: &RelocateReader<S
     assert!(rr.offset_id() == m.offset_id());
 }
 
-/// the non-relocating operations that hand back integers: one of them, on both readers
-fn plain_read<'a, T: Relocate<usize> + core::fmt::Debug + Clone>(op: u8, rr: &mut RelocateReader<S<'a>, T>, m: &mut S<'a>) {
-    match op {
-        0 => assert!(rr.read_u8() == m.read_u8()),
-        1 => assert!(rr.read_i8() == m.read_i8()),
-        2 => assert!(rr.read_u16() == m.read_u16()),
-        3 => assert!(rr.read_i16() == m.read_i16()),
-        4 => assert!(rr.read_u32() == m.read_u32()),
-        5 => assert!(rr.read_i32() == m.read_i32()),
-        6 => assert!(rr.read_u64() == m.read_u64()),
-        7 => assert!(rr.read_i64() == m.read_i64()),
-        8 => {
-            let k: usize = kani::any();
-            kani::assume(1 <= k && k <= 8);
-            assert!(rr.read_uint(k) == m.read_uint(k));
+// ---- the non-relocating reads: one of them, on both readers; results (values, errors with their offset ids) equal
+macro_rules! both {
+    ($name:ident, |$r:ident| $e:expr) => {
+        fn $name<'a, T: Rel>(rr: &mut RR<'a, T>, m: &mut S<'a>) {
+            let a = { let $r = &mut *rr; $e };
+            let b = { let $r = &mut *m; $e };
+            assert!(a == b);
         }
-        // word-sized fields that are NOT relocatable: lengths
-        9 => assert!(rr.read_word(Format::Dwarf32) == m.read_word(Format::Dwarf32)),
-        10 => assert!(rr.read_word(Format::Dwarf64) == m.read_word(Format::Dwarf64)),
-        11 => assert!(rr.read_length(Format::Dwarf32) == m.read_length(Format::Dwarf32)),
-        12 => assert!(rr.read_length(Format::Dwarf64) == m.read_length(Format::Dwarf64)),
-        13 => assert!(rr.read_initial_length() == m.read_initial_length()),
-        14 => assert!(rr.read_address_size() == m.read_address_size()),
-        15 => assert!(rr.read_uleb128() == m.read_uleb128()),
-        16 => assert!(rr.read_sleb128() == m.read_sleb128()),
-        17 => assert!(rr.read_uleb128_u16() == m.read_uleb128_u16()),
-        18 => assert!(rr.read_uleb128_u32() == m.read_uleb128_u32()),
-        _ => assert!(rr.skip_leb128() == m.skip_leb128()),
-    }
+    };
+}
+both!(p_u8, |r| r.read_u8());
+both!(p_i8, |r| r.read_i8());
+both!(p_u16, |r| r.read_u16());
+both!(p_i16, |r| r.read_i16());
+both!(p_u32, |r| r.read_u32());
+both!(p_i32, |r| r.read_i32());
+both!(p_u64, |r| r.read_u64());
+both!(p_i64, |r| r.read_i64());
+// word-sized fields that are NOT relocatable (lengths), and the other default methods built on the integer reads
+both!(p_word32, |r| r.read_word(Format::Dwarf32));
+both!(p_word64, |r| r.read_word(Format::Dwarf64));
+both!(p_len32, |r| r.read_length(Format::Dwarf32));
+both!(p_len64, |r| r.read_length(Format::Dwarf64));
+both!(p_initial_length, |r| r.read_initial_length());
+both!(p_address_size, |r| r.read_address_size());
+both!(p_uleb, |r| r.read_uleb128());
+both!(p_sleb, |r| r.read_sleb128());
+both!(p_uleb16, |r| r.read_uleb128_u16());
+both!(p_uleb32, |r| r.read_uleb128_u32());
+both!(p_skip_leb, |r| r.skip_leb128());
+fn p_uint<'a, T: Rel>(rr: &mut RR<'a, T>, m: &mut S<'a>) {
+    let k: usize = kani::any();
+    kani::assume(1 <= k && k <= 8);
+    assert!(rr.read_uint(k) == m.read_uint(k));
 }
 
-/// the cursor / view operations: one of them, on both readers
-fn cursor_op<'a, T: Relocate<usize> + core::fmt::Debug + Clone>(op: u8, rr: &mut RelocateReader<S<'a>, T>, m: &mut S<'a>, base: S<'a>, rel: T) {
+// ---- cursor / view operations
+fn c_skip<'a, T: Rel>(rr: &mut RR<'a, T>, m: &mut S<'a>) {
     let arg: usize = kani::any();
-    match op {
-        0 => assert!(rr.skip(arg) == m.skip(arg)),
-        1 => assert!(rr.truncate(arg) == m.truncate(arg)),
-        2 => {
-            let a = rr.split(arg);
-            let b = m.split(arg);
-            match (a, b) {
-                (Ok(a), Ok(b)) => same(&a, &b),
-                (Err(a), Err(b)) => assert!(a == b),
-                _ => assert!(false),
-            }
-        }
-        3 => assert!(rr.find(arg as u8) == Reader::find(m, arg as u8)),
-        4 => {
-            // offset_from: against the section and against an arbitrary enclosing window
-            let sec = RelocateReader::new(base, rel.clone());
-            assert!(rr.offset_from(&sec) == Reader::offset_from(m, &base));
-            let off = Reader::offset_from(m, &base);
-            kani::assume(arg <= off);
-            let mut w = RelocateReader::new(base, rel);
-            w.skip(arg).unwrap();
-            assert!(rr.offset_from(&w) == off - arg);
-        }
-        5 => {
-            let id = ReaderOffsetId(kani::any());
-            assert!(rr.lookup_offset_id(id) == m.lookup_offset_id(id));
-            assert!(rr.lookup_offset_id(m.offset_id()) == Some(0));
-        }
-        6 => {
-            kani::assume(arg <= 9);
-            let mut b1 = [0u8; 9];
-            let mut b2 = [0u8; 9];
-            assert!(rr.read_slice(&mut b1[..arg]) == m.read_slice(&mut b2[..arg]));
-            assert!(b1 == b2);
-        }
-        7 => {
-            let a = rr.read_null_terminated_slice();
-            let b = m.read_null_terminated_slice();
-            match (a, b) {
-                (Ok(a), Ok(b)) => same(&a, &b),
-                (Err(a), Err(b)) => assert!(a == b),
-                _ => assert!(false),
-            }
-        }
-        8 => match (rr.to_slice(), m.to_slice()) {
-            (Ok(Cow::Borrowed(a)), Ok(Cow::Borrowed(b))) => assert!(a.as_ptr() == b.as_ptr() && a.len() == b.len()),
-            _ => assert!(false),
-        },
-        9 => {
-            let c = rr.clone();
-            same(&c, m);
-            rr.skip(arg).ok();
-            m.skip(arg).ok();
-            // the clone is independent of the original
-            assert!(c.len() >= rr.len());
-        }
-        _ => {
-            rr.empty();
-            m.empty();
-            assert!(rr.len() == 0 && rr.is_empty());
-            assert!(rr.read_u8().is_err());
-            return;
-        }
+    assert!(rr.skip(arg) == m.skip(arg));
+}
+fn c_truncate<'a, T: Rel>(rr: &mut RR<'a, T>, m: &mut S<'a>) {
+    let arg: usize = kani::any();
+    assert!(rr.truncate(arg) == m.truncate(arg));
+}
+fn c_split<'a, T: Rel>(rr: &mut RR<'a, T>, m: &mut S<'a>) {
+    let arg: usize = kani::any();
+    match (rr.split(arg), m.split(arg)) {
+        (Ok(a), Ok(b)) => same(&a, &b),
+        (Err(a), Err(b)) => assert!(a == b),
+        _ => assert!(false),
     }
 }
+fn c_find<'a, T: Rel>(rr: &mut RR<'a, T>, m: &mut S<'a>) {
+    let byte: u8 = kani::any();
+    assert!(rr.find(byte) == Reader::find(m, byte));
+}
+fn c_lookup<'a, T: Rel>(rr: &mut RR<'a, T>, m: &mut S<'a>) {
+    let id = ReaderOffsetId(kani::any());
+    assert!(rr.lookup_offset_id(id) == m.lookup_offset_id(id));
+    assert!(rr.lookup_offset_id(m.offset_id()) == Some(0));
+}
+fn c_read_slice<'a, T: Rel>(rr: &mut RR<'a, T>, m: &mut S<'a>) {
+    let k: usize = kani::any();
+    kani::assume(k <= 9);
+    let mut b1 = [0u8; 9];
+    let mut b2 = [0u8; 9];
+    assert!(rr.read_slice(&mut b1[..k]) == m.read_slice(&mut b2[..k]));
+    assert!(b1 == b2);
+}
+fn c_null_terminated<'a, T: Rel>(rr: &mut RR<'a, T>, m: &mut S<'a>) {
+    match (rr.read_null_terminated_slice(), m.read_null_terminated_slice()) {
+        (Ok(a), Ok(b)) => same(&a, &b),
+        (Err(a), Err(b)) => assert!(a == b),
+        _ => assert!(false),
+    }
+}
+fn c_to_slice<'a, T: Rel>(rr: &mut RR<'a, T>, m: &mut S<'a>) {
+    match (rr.to_slice(), m.to_slice()) {
+        (Ok(Cow::Borrowed(a)), Ok(Cow::Borrowed(b))) => assert!(a.as_ptr() == b.as_ptr() && a.len() == b.len()),
+        _ => assert!(false),
+    }
+}
+fn c_clone<'a, T: Rel>(rr: &mut RR<'a, T>, m: &mut S<'a>) {
+    let c = rr.clone();
+    let mc = *m;
+    same(&c, m);
+    let arg: usize = kani::any();
+    assert!(rr.skip(arg) == m.skip(arg));
+    // the clone is independent of the original
+    same(&c, &mc);
+}
+fn c_empty<'a, T: Rel>(rr: &mut RR<'a, T>, m: &mut S<'a>) {
+    rr.empty();
+    m.empty();
+    assert!(rr.len() == 0 && rr.is_empty());
+    assert!(rr.read_u8().is_err() && rr.skip(1).is_err() && rr.find(0).is_err());
+    // (the position after `empty()` is the subject of the finding, see k_reloc_empty_then_read; not compared here)
+    *rr = reloc_at(*rr.inner(), T::any(), 0, 0);
+    *m = *rr.inner();
+}
 
+macro_rules! step {
+    ($name:ident, $rel:ty, $($f:ident),+) => { step!($name, $rel, L, 20; $($f),+); };
+    ($name:ident, $rel:ty, $maxwin:expr, $unwind:expr; $($f:ident),+) => {
+        #[kani::proof]
+        #[kani::unwind($unwind)]
+        fn $name() {
+            let data: [u8; L] = kani::any();
+            let base = EndianSlice::new(&data[..], any_endian());
+            let (s, n) = any_window(L);
+            kani::assume(n <= $maxwin);
+            let mut rr = reloc_at(base, <$rel>::any(), s, n);
+            let mut m = base.range(s..s + n);
+            same(&rr, &m);
+            choose!((&mut rr, &mut m), $($f),+);
+            same(&rr, &m);
+        }
+    };
+}
+// `choose!` passes ONE expression: adapters taking the pair
+macro_rules! pair {
+    ($($g:ident = $f:ident),+) => { $( fn $g<'a, T: Rel>(p: (&mut RR<'a, T>, &mut S<'a>)) { $f(p.0, p.1) } )+ };
+}
+pair!(q_u8 = p_u8, q_i8 = p_i8, q_u16 = p_u16, q_i16 = p_i16, q_u32 = p_u32, q_i32 = p_i32, q_u64 = p_u64, q_i64 = p_i64,
+      q_word32 = p_word32, q_word64 = p_word64, q_len32 = p_len32, q_len64 = p_len64, q_initial_length = p_initial_length,
+      q_address_size = p_address_size, q_uleb = p_uleb, q_sleb = p_sleb, q_uleb16 = p_uleb16, q_uleb32 = p_uleb32,
+      q_skip_leb = p_skip_leb, q_uint = p_uint, d_skip = c_skip, d_truncate = c_truncate, d_split = c_split, d_find = c_find,
+      d_lookup = c_lookup, d_read_slice = c_read_slice, d_null_terminated = c_null_terminated, d_to_slice = c_to_slice,
+      d_clone = c_clone, d_empty = c_empty);
+
+macro_rules! steps {
+    ($rel:ty, $ints_small:ident, $ints_large:ident, $words:ident, $misc:ident, $lebs:ident, $cursor:ident, $views:ident,
+     $find:ident, $read_slice:ident, $null_terminated:ident) => {
+        step!($ints_small, $rel, q_u8, q_i8, q_u16, q_i16);
+        step!($ints_large, $rel, q_u32, q_i32, q_u64, q_i64);
+        step!($words, $rel, q_word32, q_word64, q_len32, q_len64);
+        step!($misc, $rel, q_initial_length, q_address_size, q_uint);
+        // LEB128 reads are trait-default code over `read_u8` (checked above); the loop-free `read_uleb128_u16` stands for them
+        // (the looping ones cost > 10 CPU-minutes each through two readers and add nothing about delegation; values: K-LEB)
+        step!($lebs, $rel, q_uleb16);
+        step!($cursor, $rel, d_skip, d_truncate, d_split);
+        step!($views, $rel, d_lookup, d_to_slice, d_clone, d_empty);
+        step!($find, $rel, d_find);
+        step!($read_slice, $rel, d_read_slice);
+        step!($null_terminated, $rel, d_null_terminated);
+    };
+}
+steps!(Identity, k_reloc_identity_ints_small, k_reloc_identity_ints_large, k_reloc_identity_words, k_reloc_identity_misc,
+       k_reloc_identity_uleb16, k_reloc_identity_cursor, k_reloc_identity_views, k_reloc_identity_find,
+       k_reloc_identity_read_slice, k_reloc_identity_null_terminated);
+steps!(AddK, k_reloc_addk_ints_small, k_reloc_addk_ints_large, k_reloc_addk_words, k_reloc_addk_misc,
+       k_reloc_addk_uleb16, k_reloc_addk_cursor, k_reloc_addk_views, k_reloc_addk_find,
+       k_reloc_addk_read_slice, k_reloc_addk_null_terminated);
+
+/// `offset_from` between relocating readers: against the section and against an arbitrary enclosing window
 #[kani::proof]
 #[kani::unwind(20)]
-fn k_reloc_identity_plain_reads() {
+fn k_reloc_offset_from() {
     let data: [u8; L] = kani::any();
     let base = EndianSlice::new(&data[..], any_endian());
     let (s, n) = any_window(L);
-    let mut rr = reloc_at(base, Identity, s, n);
-    let mut m = base.range(s..s + n);
-    same(&rr, &m);
-    plain_read(kani::any(), &mut rr, &mut m);
-    same(&rr, &m);
+    let rel = AddK::any();
+    let rr = reloc_at(base, rel, s, n);
+    let sec = RelocateReader::new(base, rel);
+    assert!(rr.offset_from(&sec) == s);
+    let a: usize = kani::any();
+    kani::assume(a <= s);
+    let w = reloc_at(base, rel, a, L - a);
+    assert!(rr.offset_from(&w) == s - a);
 }
 
-#[kani::proof]
-#[kani::unwind(20)]
-fn k_reloc_identity_cursor() {
-    let data: [u8; L] = kani::any();
-    let base = EndianSlice::new(&data[..], any_endian());
-    let (s, n) = any_window(L);
-    let mut rr = reloc_at(base, Identity, s, n);
-    let mut m = base.range(s..s + n);
-    same(&rr, &m);
-    let op: u8 = kani::any();
-    cursor_op(op, &mut rr, &mut m, base, Identity);
-    if op <= 9 {
-        same(&rr, &m);
-    }
-}
-
-/// the three relocating reads, every size (valid and invalid), identity relocation == bare reader
-#[kani::proof]
-#[kani::unwind(20)]
-fn k_reloc_identity_relocating_reads() {
-    let data: [u8; L] = kani::any();
-    let base = EndianSlice::new(&data[..], any_endian());
-    let (s, n) = any_window(L);
-    let mut rr = reloc_at(base, Identity, s, n);
-    let mut m = base.range(s..s + n);
-    let size: u8 = kani::any();
-    let op: u8 = kani::any();
-    match op {
-        0 => assert!(rr.read_address(size) == m.read_address(size)),
-        1 => assert!(rr.read_sized_offset(size) == m.read_sized_offset(size)),
-        2 => assert!(rr.read_offset(Format::Dwarf32) == m.read_offset(Format::Dwarf32)),
-        _ => assert!(rr.read_offset(Format::Dwarf64) == m.read_offset(Format::Dwarf64)),
-    }
-    same(&rr, &m);
-}
-
-/// value+k+offset relocation: the three reads return relocate(SECTION offset, raw), consume what the raw read consumes
-/// (also when the relocation itself fails), on the reader and on a reader split off it
-#[kani::proof]
-#[kani::unwind(20)]
-fn k_reloc_addk_relocating_reads() {
-    let data: [u8; L] = kani::any();
-    let base = EndianSlice::new(&data[..], any_endian());
-    let (s, n) = any_window(L);
-    let rel = AddK { k: kani::any(), bad: kani::any() };
-    let mut rr = reloc_at(base, rel, s, n);
-    let mut m = base.range(s..s + n);
-    // optionally continue on the head / on the tail of a split: `section` must be kept by `split`
-    let cut: usize = kani::any();
-    let mode: u8 = kani::any();
-    if mode < 2 {
-        kani::assume(cut <= n);
-        let head = rr.split(cut).unwrap();
-        let mhead = m.split(cut).unwrap();
-        if mode == 0 {
-            rr = head;
-            m = mhead;
-        }
-    }
-    let pos = Reader::offset_from(&m, &base);
-    let size: u8 = kani::any();
-    let op: u8 = kani::any();
-    match op {
-        0 => {
-            let got = rr.read_address(size);
-            match m.read_address(size) {
-                Ok(raw) => assert!(got == rel.relocate_address(pos, raw)),
-                Err(e) => assert!(got == Err(e)),
-            }
-            if pos != rel.bad {
-                if let Ok(v) = got {
-                    // spelled out: raw + k + section offset
-                    let mut mm = base.range(pos..L);
-                    assert!(v == mm.read_address(size).unwrap().wrapping_add(rel.k).wrapping_add(pos as u64));
+// ---- the three relocating reads
+macro_rules! relocating {
+    ($name:ident, $rel:ty, $split:expr, |$r:ident, $size:ident, $fmt:ident| $read:expr, |$t:ident, $pos:ident, $raw:ident| $relocate:expr) => {
+        #[kani::proof]
+        #[kani::unwind(20)]
+        fn $name() {
+            let data: [u8; L] = kani::any();
+            let base = EndianSlice::new(&data[..], any_endian());
+            let (s, n) = any_window(L);
+            let rel = <$rel>::any();
+            let mut rr = reloc_at(base, rel, s, n);
+            let mut m = base.range(s..s + n);
+            if $split {
+                // continue on the head or on the tail of a split: `split` must keep `section`, i.e. the offset handed
+                // to the relocation stays relative to the SECTION, not to the split-off reader
+                let cut: usize = kani::any();
+                kani::assume(cut <= n);
+                let head = rr.split(cut).unwrap();
+                let mhead = m.split(cut).unwrap();
+                if kani::any() {
+                    rr = head;
+                    m = mhead;
                 }
             }
-        }
-        1 => {
-            let got = rr.read_sized_offset(size);
-            match m.read_sized_offset(size) {
-                Ok(raw) => assert!(got == rel.relocate_offset(pos, raw)),
+            // section offset of the field about to be read
+            let $pos = Reader::offset_from(&m, &base);
+            let $size: u8 = kani::any();
+            let $fmt = if kani::any() { Format::Dwarf32 } else { Format::Dwarf64 };
+            let got = { let $r = &mut rr; $read };
+            let raw = { let $r = &mut m; $read };
+            let $t = rel;
+            match raw {
+                // = relocate(section offset, raw), including a failing relocation
+                Ok($raw) => assert!(got == $relocate),
+                // the inner read's error, unchanged
                 Err(e) => assert!(got == Err(e)),
             }
+            // consumed exactly what the raw read consumed
+            same(&rr, &m);
         }
-        _ => {
-            let f = if op == 2 { Format::Dwarf32 } else { Format::Dwarf64 };
-            let got = rr.read_offset(f);
-            match m.read_offset(f) {
-                Ok(raw) => {
-                    assert!(got == rel.relocate_offset(pos, raw));
-                    if pos == rel.bad {
-                        assert!(got == Err(Error::UnsupportedOffset));
-                    }
-                }
-                Err(e) => assert!(got == Err(e)),
-            }
-        }
-    }
-    same(&rr, &m);
+    };
 }
-
-/// value+k+offset relocation: nothing but the three reads is affected
-#[kani::proof]
-#[kani::unwind(20)]
-fn k_reloc_addk_plain_reads() {
-    let data: [u8; L] = kani::any();
-    let base = EndianSlice::new(&data[..], any_endian());
-    let (s, n) = any_window(L);
-    let rel = AddK { k: kani::any(), bad: kani::any() };
-    let mut rr = reloc_at(base, rel, s, n);
-    let mut m = base.range(s..s + n);
-    plain_read(kani::any(), &mut rr, &mut m);
-    same(&rr, &m);
-}
-
-#[kani::proof]
-#[kani::unwind(20)]
-fn k_reloc_addk_cursor() {
-    let data: [u8; L] = kani::any();
-    let base = EndianSlice::new(&data[..], any_endian());
-    let (s, n) = any_window(L);
-    let rel = AddK { k: kani::any(), bad: kani::any() };
-    let mut rr = reloc_at(base, rel, s, n);
-    let mut m = base.range(s..s + n);
-    let op: u8 = kani::any();
-    cursor_op(op, &mut rr, &mut m, base, rel);
-    if op <= 9 {
-        same(&rr, &m);
-    }
-}
+relocating!(k_reloc_identity_read_address, Identity, false, |r, size, _f| r.read_address(size), |_t, _pos, raw| Ok(raw));
+relocating!(k_reloc_identity_read_sized_offset, Identity, false, |r, size, _f| r.read_sized_offset(size), |_t, _pos, raw| Ok(raw));
+relocating!(k_reloc_identity_read_offset, Identity, false, |r, _size, f| r.read_offset(f), |_t, _pos, raw| Ok(raw));
+relocating!(k_reloc_addk_read_address, AddK, false, |r, size, _f| r.read_address(size),
+            |t, pos, raw| if pos == t.bad { Err(Error::UnsupportedOffset) } else { Ok(raw.wrapping_add(t.k).wrapping_add(pos as u64)) });
+relocating!(k_reloc_addk_read_sized_offset, AddK, false, |r, size, _f| r.read_sized_offset(size),
+            |t, pos, raw| if pos == t.bad { Err(Error::UnsupportedOffset) } else { Ok(raw.wrapping_add(t.k as usize).wrapping_add(pos).wrapping_add(1)) });
+relocating!(k_reloc_addk_read_offset, AddK, false, |r, _size, f| r.read_offset(f),
+            |t, pos, raw| if pos == t.bad { Err(Error::UnsupportedOffset) } else { Ok(raw.wrapping_add(t.k as usize).wrapping_add(pos).wrapping_add(1)) });
+// after a split (head or tail): 4-byte fields only, to keep the harness small
+relocating!(k_reloc_addk_split_read_address, AddK, true, |r, _size, _f| r.read_address(4),
+            |t, pos, raw| if pos == t.bad { Err(Error::UnsupportedOffset) } else { Ok(raw.wrapping_add(t.k).wrapping_add(pos as u64)) });
+relocating!(k_reloc_addk_split_read_offset, AddK, true, |r, _size, _f| r.read_offset(Format::Dwarf32),
+            |t, pos, raw| if pos == t.bad { Err(Error::UnsupportedOffset) } else { Ok(raw.wrapping_add(t.k as usize).wrapping_add(pos).wrapping_add(1)) });
+relocating!(k_reloc_addk_split_read_sized_offset, AddK, true, |r, _size, _f| r.read_sized_offset(4),
+            |t, pos, raw| if pos == t.bad { Err(Error::UnsupportedOffset) } else { Ok(raw.wrapping_add(t.k as usize).wrapping_add(pos).wrapping_add(1)) });
 
 /// EXPECTED-FAIL on the pinned tree (finding, native/src/bin/f_relocate_1.rs): after `empty()` the three relocating
 /// reads must fail like the bare reader does (UnexpectedEof); they panic in `EndianSlice::offset_from` instead.
@@ -323,9 +327,11 @@ fn k_reloc_empty_then_read() {
     rr.empty();
     m.empty();
     let size: u8 = kani::any();
-    match kani::any::<u8>() {
-        0 => assert!(rr.read_address(size).is_err() && m.read_address(size).is_err()),
-        1 => assert!(rr.read_sized_offset(size).is_err() && m.read_sized_offset(size).is_err()),
-        _ => assert!(rr.read_offset(Format::Dwarf32).is_err() && m.read_offset(Format::Dwarf32).is_err()),
+    if kani::any() {
+        assert!(rr.read_address(size).is_err() && m.read_address(size).is_err());
+    } else if kani::any() {
+        assert!(rr.read_sized_offset(size).is_err() && m.read_sized_offset(size).is_err());
+    } else {
+        assert!(rr.read_offset(Format::Dwarf32).is_err() && m.read_offset(Format::Dwarf32).is_err());
     }
 }
